@@ -138,7 +138,12 @@ def build_tree(rng, seed, index, depth, counter):
     shape = {}
     if depth > 0:
         deps = {}
-        for i in range(rng.choice([0, 1, 1, 2])):
+        ndep = rng.choice([0, 1, 1, 2, 3])
+        # the names of the dependencies of one level are integrated in no particular order (descending as often as ascending, C11-s)
+        idx = list(range(ndep))
+        if rng.random() < 0.5:
+            idx.reverse()
+        for i in idx:
             name = f"#dep{depth}_{i}"
             sub, subfiles, subshape = build_tree(rng, seed, index, depth - 1, counter)
             files.update(subfiles)
